@@ -16,6 +16,7 @@ class TooBig(Exception):
 
 
 LIMIT = 60000
+DEFAULT_LIMIT = LIMIT
 
 
 class Poly:
@@ -296,3 +297,158 @@ def eliminate(expr, ctx):
         if not progressed:
             return p
     raise TooBig()
+
+
+# ---------------------------------------------------------------------------------------------
+def poly_sqrt(P, cap=400):
+    """Q with Q*Q == P for a polynomial that is a perfect square in Q[vars], else None
+    (long-hand square root under the lexicographic order of the sorted variable names)."""
+    if P.is_zero():
+        return Poly()
+    names = sorted(P.vars())
+    key = lambda m: tuple(dict(m).get(v, 0) for v in names)
+    import math
+
+    def lead(p):
+        m = max(p.t, key=key)
+        return m, p.t[m]
+    m0, c0 = lead(P)
+    if any(e % 2 for _v, e in m0) or c0 <= 0:
+        return None
+    rn, rd = math.isqrt(c0.numerator), math.isqrt(c0.denominator)
+    if rn * rn != c0.numerator or rd * rd != c0.denominator:
+        return None
+    q0m = tuple((v, e // 2) for v, e in m0)
+    q0c = Fr(rn, rd)
+    Q = Poly({q0m: q0c})
+    R = P - Q * Q
+    d0 = dict(q0m)
+    for _ in range(cap):
+        if R.is_zero():
+            return Q
+        m, c = lead(R)
+        d = dict(m)
+        out = {}
+        for v, e in d.items():
+            e2 = e - d0.get(v, 0)
+            if e2 < 0:
+                return None
+            if e2:
+                out[v] = e2
+        if any(v not in d for v in d0 if d0[v] > 0 and d.get(v, 0) < d0[v]):
+            return None
+        t = Poly({tuple(sorted(out.items())): c / (2 * q0c)})
+        Q = Q + t
+        R = P - Q * Q
+    return None
+
+
+def _exact_div(p, d):
+    """p / d when d divides p exactly (lexicographic long division), else None"""
+    if d.is_zero():
+        return None
+    names = sorted(p.vars() | d.vars())
+    key = lambda m: tuple(dict(m).get(v, 0) for v in names)
+    dm = max(d.t, key=key)
+    dc = d.t[dm]
+    dd = dict(dm)
+    q = Poly()
+    r = p
+    for _ in range(2000):
+        if r.is_zero():
+            return q
+        m = max(r.t, key=key)
+        c = r.t[m]
+        md = dict(m)
+        out = {}
+        for v in set(md) | set(dd):
+            e = md.get(v, 0) - dd.get(v, 0)
+            if e < 0:
+                return None
+            if e:
+                out[v] = e
+        t = Poly({tuple(sorted(out.items())): c / dc})
+        q = q + t
+        r = r - t * d
+    return None
+
+
+def _mul_clear(p, v, den, k):
+    out = Poly()
+    groups = {}
+    for m, c in p.t.items():
+        e = 0
+        rest = []
+        for w, kk in m:
+            if w == v:
+                e = kk
+            else:
+                rest.append((w, kk))
+        groups.setdefault(e, {})[tuple(rest)] = c
+    for e, t in groups.items():
+        out = out + Poly(t) * (den ** (k - e))
+    return out
+
+
+def exact_sqrt(arg, ctx, extra=()):
+    """a z3 term equal to sqrt(arg) built from existing symbols only, when arg is - modulo the
+    sin/cos relations and after clearing (even powers of) reciprocal variables - a perfect square
+    with a sign the constraints decide; else None. Sound: the returned term t satisfies t*t = arg
+    under the defining constraints and t >= 0 is proved."""
+    memo = {}
+    try:
+        p = _reduce_trig(from_z3(z3.simplify(arg), memo), ctx)
+        mult = []           # (reciprocal variable, power of its denominator multiplied in)
+        for v in sorted(x for x in p.vars() if '!' in x):
+            d = ctx.defs.get(v)
+            if d is None:
+                return None
+            if d[0] == 'inv':
+                k = p.maxdeg(v)
+                k += k % 2
+                den = _reduce_trig(from_z3(d[1], memo), ctx)
+                if any('!' in x and ctx.defs.get(x, ('?',))[0] == 'inv' for x in den.vars()):
+                    return None
+                # P * den^k, with v^j den^j -> 1 (the e = 0 group is multiplied as well)
+                p = _subst_power(p * Poly.var('__k__'), v, lambda e: Poly.const(1)) if False else _mul_clear(p, v, den, k)
+                p = _reduce_trig(p, ctx)
+                mult.append((v, k // 2))
+        q = poly_sqrt(p)
+        if q is None:
+            # the same polynomial written in sines instead of cosines (c^2 -> 1 - s^2)
+            p2 = p
+            for (a_, b_, _arg) in ctx.trig.values():
+                v = str(b_)
+                if p2.maxdeg(v) >= 2:
+                    qq_ = Poly.const(1) - Poly.var(str(a_)) * Poly.var(str(a_))
+                    p2 = _subst_power(p2, v, lambda e, qq_=qq_, v=v: (qq_ ** (e // 2)) * (Poly.var(v) if e % 2 else Poly.const(1)))
+            q = poly_sqrt(p2)
+        if q is None:
+            return None
+        for v, half in list(mult):
+            # sqrt = q * v^half with v = 1/den: cancel den out of q where it divides exactly
+            den = _reduce_trig(from_z3(ctx.defs[v][1], memo), ctx)
+            while half:
+                qq = _exact_div(q, den)
+                if qq is None:
+                    break
+                q = qq
+                half -= 1
+            mult[mult.index((v, [h_ for vv, h_ in mult if vv == v][0]))] = (v, half)
+        t = q.to_z3()
+        for v, half in mult:
+            for _ in range(half):
+                t = t * z3.Real(v)
+        t = z3.simplify(t)
+        for cand in (t, -t):
+            s = z3.Solver()
+            s.set('timeout', 3000)
+            s.add(ctx.dom)
+            s.add(ctx.cons)
+            s.add(list(extra))
+            s.add(cand < 0)
+            if s.check() == z3.unsat:
+                return z3.simplify(cand)
+        return None
+    except (NotImplementedError, TooBig, KeyError, RecursionError):
+        return None
